@@ -43,6 +43,8 @@ var Atoms = []string{
 	// branches on: a conversion to byte / uint16 somewhere would alias them
 	"\U00000130", "\U00000131", "\U00000138", "\U00000139", "\U0000013a", "\U0000012e", "\U0000012f", "\U00000125", "\U00000141", "\U00000146", "\U00000161", "\U00000166", "\U0000015b", "\U0000015d", "\U00000140", "\U0000013f", "\U00000123", "\U0000015c", "\U00000178", "\U00000120", "\U00000109", "\U0000010a", "\U0000012d", "\U0000012b", "\U0000013d", "\U00000126", "\U0000017c",
 	"\U00010030", "\U00010031", "\U00010039", "\U0001003a", "\U0001002e", "\U0001002f", "\U00010025", "\U00010061", "\U00010066", "\U00010040", "\U0001003f", "\U00010023",
+	// the first code points above ASCII (C1 controls, NBSP boundary)
+	"\u0080", "\u0081", "\u009f", "a\u0080b.com",
 	// delimiters
 	":", ":", ":", "/", "/", "/", "//", "//", "\\", "\\", "\\\\", "?", "?", "#", "#", "@", "@", "[", "]", ";", "=", "&",
 	// dot segments
